@@ -126,24 +126,79 @@ pub fn run(tape: &[u8], cx: &Cx) -> Outcome {
         o.render = format!("{} ; subjects {} ; replacement {}", prog.render(), subjects.iter().map(|s| show_str(s)).collect::<Vec<_>>().join(" "), show_str(&repl));
     }
     let last = prog.ins.len() - 1;
-    // run through the wrappers in a fresh thread (fresh thread-local manager)
+    // reference results first (pure): membership of every substring — DP matrix for short subjects, runs
+    // of the reference DFA for long ones — then leftmost-shortest replacement on that matrix
+    let dfas = if long_subject { prog.dfas().ok() } else { None };
+    let mut tables: Vec<Option<Vec<Vec<bool>>>> = Vec::new();
+    for s in &subjects {
+        let n = s.len();
+        let table: Option<Vec<Vec<bool>>> = if n > 40 {
+            match &dfas {
+                Some(d) => {
+                    let d = &d[last];
+                    let wa = prog.word_atoms(s);
+                    Some(
+                        (0..=n)
+                            .map(|i| {
+                                let mut row = vec![false; n + 1];
+                                let mut q = d.start;
+                                row[i] = d.is_final(q);
+                                for j in i..n {
+                                    q = d.step(q, wa[j]);
+                                    row[j + 1] = d.is_final(q);
+                                }
+                                row
+                            })
+                            .collect(),
+                    )
+                }
+                None => None,
+            }
+        } else {
+            let mat = &prog.dp(s)[last];
+            Some((0..=n).map(|i| (0..=n).map(|j| j >= i && mat.get(i, j)).collect()).collect())
+        };
+        tables.push(table);
+    }
+    let expected: Vec<Option<(Vec<u32>, Vec<u32>, usize)>> = subjects
+        .iter()
+        .zip(tables.iter())
+        .map(|(s, tb)| {
+            tb.as_ref().map(|table| {
+                let m = |i: usize, j: usize| table[i][j];
+                let exp_a = ref_replace(s, &repl, &m);
+                let (exp_b, count) = ref_replace_all(s, &repl, &m);
+                (exp_a, exp_b, count)
+            })
+        })
+        .collect();
+    // run through the wrappers in a fresh thread (fresh thread-local manager). str_replace_re is judged
+    // before str_replace_re_all is called at all: a search that reports a wrong match can keep
+    // replace_all from ever advancing, and a check that hangs reports nothing
     let p2 = prog.clone();
     let subs = subjects.clone();
     let rp = repl.clone();
+    let exp_first: Vec<Option<Vec<u32>>> = expected.iter().map(|e| e.as_ref().map(|x| x.0.clone())).collect();
     let res = std::thread::spawn(move || {
         catch(move || {
             let terms = p2.build_wrapped();
             let e = *terms.last().unwrap();
             let r = smt(&rp);
-            let mut out = Vec::new();
-            for s in &subs {
+            let mut out: Vec<(Vec<u32>, Option<(Vec<u32>, Vec<u32>, Vec<u32>)>)> = Vec::new();
+            for (s, exp) in subs.iter().zip(exp_first.iter()) {
                 let cs = smt(s);
+                let a1 = w::str_replace_re(&cs, e, &r).as_ref().to_vec();
+                if let Some(x) = exp {
+                    if *x != a1 {
+                        out.push((a1, None));
+                        break;
+                    }
+                }
                 // call each function twice: the second call runs on a warm derivative cache
-                let a1 = w::str_replace_re(&cs, e, &r);
                 let b1 = w::str_replace_re_all(&cs, e, &r);
                 let a2 = w::str_replace_re(&cs, e, &r);
                 let b2 = w::str_replace_re_all(&cs, e, &r);
-                out.push((a1.as_ref().to_vec(), b1.as_ref().to_vec(), a2.as_ref().to_vec(), b2.as_ref().to_vec()));
+                out.push((a1, Some((b1.as_ref().to_vec(), a2.as_ref().to_vec(), b2.as_ref().to_vec()))));
             }
             (out, e.nullable)
         })
@@ -160,47 +215,32 @@ pub fn run(tape: &[u8], cx: &Cx) -> Outcome {
             return o;
         }
     };
-    let dfas = if long_subject { prog.dfas().ok() } else { None };
-    for (s, (a1, b1, a2, b2)) in subjects.iter().zip(rows.iter()) {
-        // membership of every substring: DP matrix for short subjects, runs of the reference DFA for long ones
+    for ((s, (a1, rest)), (exp, tb)) in subjects.iter().zip(rows.iter()).zip(expected.iter().zip(tables.iter())) {
         let n = s.len();
-        let table: Vec<Vec<bool>> = if n > 40 {
-            let d = match &dfas {
-                Some(d) => &d[last],
-                None => {
-                    o.tag("long-subject-skipped");
-                    continue;
-                }
-            };
-            o.tag("long-subject");
-            let wa = prog.word_atoms(s);
-            (0..=n)
-                .map(|i| {
-                    let mut row = vec![false; n + 1];
-                    let mut q = d.start;
-                    row[i] = d.is_final(q);
-                    for j in i..n {
-                        q = d.step(q, wa[j]);
-                        row[j + 1] = d.is_final(q);
-                    }
-                    row
-                })
-                .collect()
-        } else {
-            let mat = &prog.dp(s)[last];
-            (0..=n).map(|i| (0..=n).map(|j| j >= i && mat.get(i, j)).collect()).collect()
+        let (exp_a, exp_b, count) = match exp {
+            Some(x) => (&x.0, &x.1, x.2),
+            None => {
+                o.tag("long-subject-skipped");
+                continue;
+            }
         };
+        if n > 40 {
+            o.tag("long-subject");
+        }
+        let table = tb.as_ref().unwrap();
         let m = |i: usize, j: usize| table[i][j];
         let m = &m;
         o.evals += 2;
-        let exp_a = ref_replace(s, &repl, m);
-        let (exp_b, count) = ref_replace_all(s, &repl, m);
-        if *a1 != exp_a {
-            o.fail("C10/replace_re", format!("str_replace_re({}, r{}, {}) = {}, expected {}", show_str(s), last, show_str(&repl), show_str(a1), show_str(&exp_a)));
+        if a1 != exp_a {
+            o.fail("C10/replace_re", format!("str_replace_re({}, r{}, {}) = {}, expected {}", show_str(s), last, show_str(&repl), show_str(a1), show_str(exp_a)));
             return o;
         }
-        if *b1 != exp_b {
-            o.fail("C10/replace_re_all", format!("str_replace_re_all({}, r{}, {}) = {}, expected {}", show_str(s), last, show_str(&repl), show_str(b1), show_str(&exp_b)));
+        let (b1, a2, b2) = match rest {
+            Some(x) => (&x.0, &x.1, &x.2),
+            None => continue,
+        };
+        if b1 != exp_b {
+            o.fail("C10/replace_re_all", format!("str_replace_re_all({}, r{}, {}) = {}, expected {}", show_str(s), last, show_str(&repl), show_str(b1), show_str(exp_b)));
             return o;
         }
         if a2 != a1 || b2 != b1 {
